@@ -57,7 +57,7 @@ CONSTANTS Parts,        \* part ids
 StaleTag == "D-C18-stale-replay-after-lost-lease"
 
 NoC == "-"              \* "no content": the part does not exist
-NoOwner == ""
+NoOwner == <<>>
 
 VARIABLES entries,    \* pending outbox entries in id order: [id, part, op, content, owner, lease, ver]
           nextId,     \* id of the next entry
@@ -66,16 +66,16 @@ VARIABLES entries,    \* pending outbox entries in id order: [id, part, op, cont
           pc,         \* worker -> "idle" | "claimed" | "replaying" | "replayed" | "failed"
           held,       \* worker -> [id, part, op, content] of the entry it works on (content read at ReplayStart)
           inc,        \* worker -> incarnation (claimOwner changes on restart)
-          rd,         \* the reader: [st, kind, part, snap, win, res]
+          rd,         \* the reader: [st, kind, part, snap, win, res, ok]
           stale,      \* TRUE once an inner-store mutation was applied by a worker that no longer owned the entry
           cnt         \* [crash, hb, reads] counters (bounds only)
 
 vars == <<entries, nextId, committed, inner, pc, held, inc, rd, stale, cnt>>
 
-Me(w) == w \o "#" \o ToString(inc[w])
+Me(w) == <<w, inc[w]>>
 NoHeld == [id |-> 0, part |-> "", op |-> "", content |-> NoC]
 IdleRd == [st |-> "idle", kind |-> "", part |-> "", snap |-> [p \in Parts |-> "none"],
-           win |-> [p \in Parts |-> {}], res |-> [p \in Parts |-> NoC]]
+           win |-> [p \in Parts |-> {}], res |-> [p \in Parts |-> NoC], ok |-> TRUE]
 
 Init == /\ entries = <<>> /\ nextId = 1
         /\ committed = [p \in Parts |-> NoC]
@@ -209,26 +209,33 @@ WorkerCrash(w) ==
 \* kind "get": GetPart (with or without a transaction - both do the lookup in one snapshot and read the
 \* inner store outside it), kind "ids": GetPartIds.  win[p] = the committed values of p since the read
 \* began; the read is correct iff what it returns for p is one of them.
+\* a finished read returned, for every part it speaks about, a value that was the latest committed one
+\* at some instant of the read (reads that overlap no commit must return exactly the committed value)
+ReadOK(kind, part, res, win) ==
+  IF kind = "get" THEN res[part] \in win[part]
+  ELSE \A p \in Parts : IF res[p] = "in" THEN \E v \in win[p] : v # NoC ELSE NoC \in win[p]
+\* a finished read keeps only its result and verdict (canonical form keeps the state space small)
+Done(kind, part, res, win) == [IdleRd EXCEPT !.st = "done", !.kind = kind, !.part = part, !.res = res,
+                                             !.ok = ReadOK(kind, part, res, win)]
+
+\* GetPartIds: inner ids, minus pending deletes, plus pending puts (of the snapshot taken in Read1)
+IdsResult(snap, inn) == [q \in Parts |-> IF snap[q] = "none" THEN (IF inn[q] # NoC THEN "in" ELSE "out")
+                                          ELSE IF snap[q] = NoC THEN "out" ELSE "in"]
 Read1(kind, p) ==
   /\ rd.st \in {"idle", "done"}
   /\ LET snap == [q \in Parts |-> Lookup(entries, q)]
          win0 == [q \in Parts |-> {committed[q]}]
      IN IF kind = "get" /\ snap[p] # "none"
-        THEN rd' = [st |-> "done", kind |-> kind, part |-> p, snap |-> snap, win |-> win0,
-                    res |-> [q \in Parts |-> IF q = p THEN snap[p] ELSE NoC]]
-        ELSE rd' = [st |-> "inner", kind |-> kind, part |-> p, snap |-> snap, win |-> win0,
-                    res |-> [q \in Parts |-> NoC]]
+        THEN rd' = Done(kind, p, [q \in Parts |-> IF q = p THEN snap[p] ELSE NoC], win0)
+        ELSE rd' = [IdleRd EXCEPT !.st = "inner", !.kind = kind, !.part = p, !.snap = snap, !.win = win0]
   /\ cnt' = [cnt EXCEPT !.reads = @ + 1]
   /\ UNCHANGED <<entries, nextId, committed, inner, pc, held, inc, stale>>
 
-\* GetPartIds: inner ids, minus pending deletes, plus pending puts (of the snapshot taken in Read1)
-IdsResult(snap, inn) == [q \in Parts |-> IF snap[q] = "none" THEN (IF inn[q] # NoC THEN "in" ELSE "out")
-                                          ELSE IF snap[q] = NoC THEN "out" ELSE "in"]
 Read2 ==
   /\ rd.st = "inner"
-  /\ rd' = [rd EXCEPT !.st = "done",
-                      !.res = IF rd.kind = "get" THEN [q \in Parts |-> IF q = rd.part THEN inner[q] ELSE NoC]
-                              ELSE IdsResult(rd.snap, inner)]
+  /\ rd' = Done(rd.kind, rd.part,
+                IF rd.kind = "get" THEN [q \in Parts |-> IF q = rd.part THEN inner[q] ELSE NoC]
+                ELSE IdsResult(rd.snap, inner), rd.win)
   /\ UNCHANGED <<entries, nextId, committed, inner, pc, held, inc, stale, cnt>>
 
 \* ------------------------------------------------------------- model checking
@@ -249,18 +256,15 @@ Next ==
   \/ Read2
 
 Spec == Init /\ [][Next]_vars
+\* the version column only grows and influences nothing: model checking identifies states up to it
+MCView == <<[i \in 1..Len(entries) |-> [entries[i] EXCEPT !.ver = 0]], nextId, committed, inner, pc, held, inc, rd, stale, cnt>>
 
 \* ------------------------------------------------------------- properties
 TypeOK == /\ \A i \in 1..Len(entries) : entries[i].part \in Parts /\ entries[i].op \in {"Put", "Delete"}
           /\ \A i, j \in 1..Len(entries) : i < j => entries[i].id < entries[j].id
           /\ \A w \in Workers : pc[w] \in {"idle", "claimed", "replaying", "replayed", "failed"}
 
-\* a finished read returned, for every part it speaks about, a value that was the latest committed one
-\* at some instant of the read (reads that overlap no commit must return exactly the committed value)
-ReadOK(r) ==
-  IF r.kind = "get" THEN r.res[r.part] \in r.win[r.part]
-  ELSE \A p \in Parts : IF r.res[p] = "in" THEN \E v \in r.win[p] : v # NoC ELSE NoC \in r.win[p]
-ReadsSeeLatestCommitted == rd.st = "done" => ReadOK(rd)
+ReadsSeeLatestCommitted == rd.ok
 
 \* an atomic observation (no step in between) sees exactly the committed state
 QuiescentReadsExact == \A p \in Parts : View(p) = committed[p]
